@@ -3,7 +3,10 @@
 //
 //	c15 -dir D -seed S -n N -tier quick|thorough     the check's driver
 //	c15 -probe NAME                                   print the trace of a built-in scenario
-//	c15 -explore class|general [-n N -seed S] [-v]    statistics over random worlds
+//	c15 -explore class|general|hier|hierfam [-n N -seed S] [-v]    statistics over random worlds
+//
+// -probe NAME: a corpus world, gen:<seed>:<i>, hier:<seed>:<k>, hierfam:<k>, file:<world.json>;
+// C15_LOG=<level> scheduler logs, C15_REPEAT=<k> lasso count over k runs, C15_DUMP=1 the world as JSON.
 package main
 
 import (
@@ -18,6 +21,7 @@ func main() {
 	probe := flag.String("probe", "", "print the trace of a named built-in scenario and exit")
 	explore := flag.String("explore", "", "class|general: run -n random worlds of the stream and print statistics")
 	verbose := flag.Bool("v", false, "verbose exploration")
+	hier := flag.Int("hier", -1, "number of RANDOM hierarchical worlds appended to the run (-1: quick tier 0, thorough tier n/5)")
 	u.Main(func(dir string, seed uint64, n int, tier string) error {
 		if *probe != "" {
 			fmt.Print(c15.Probe(*probe))
@@ -27,6 +31,6 @@ func main() {
 			fmt.Print(c15.Explore(*explore, seed, n, *verbose))
 			return nil
 		}
-		return c15.RunAll(dir, seed, n, tier)
+		return c15.RunAll(dir, seed, n, tier, *hier)
 	})
 }
